@@ -75,8 +75,19 @@ OPT-IN NORMALISATIONS (keyword options of generate(), all off by default so that
   N18 arith_div_pow=True: `a / b` -> ECall "/" [a; b] [] and `a ** b` -> ECall "**" [a; b] [] with structurally
       translated operands (dispatch by operator name, like + - * // on non-ints) instead of one opaque N7 text;
       `x /= e`, `x **= e` follow through N3.
+  N19 generators_as_lists=True: a translated function (mode 'body' only) that contains `yield` is translated as the
+      function that returns the LIST of the yielded values, in order (what `list(f(...))` computes when the generator
+      runs to its end): the hidden accumulator "__yield" is initialised by SAssign "__yield" (EList []) at the very
+      top of the body; the expression statement `yield e` ->
+      SAssign "__yield" (ECall "list.append" [EVar "__yield"; e] []) (the primitive returns the list AFTER the
+      append, like an N17 store; a bare `yield` appends ENone); a bare `return` -> SReturn (EVar "__yield"); a final
+      SReturn (EVar "__yield") is appended at the end of the body. Still fail closed: `yield` in value position
+      (`x = yield e`, `f((yield e))`), `yield from`, `return <value>` inside a generator, a generator translated
+      with a partial mode, a frame that already binds the name `__yield`. NOT modelled: laziness (the interleaving
+      with the consumer), `send` / `throw` / `close`; when the generator raises, the values yielded before the
+      exception are not in the outcome (as with `list(f(...))`). Functions without `yield` are not affected.
 FAIL CLOSED: any other statement or expression shape inside the translated regions (break, while/for/try-else,
-`except ... as e`, `del name`, assert, yield, await, walrus, global/nonlocal, import, nested def/class,
+`except ... as e`, `del name`, assert, yield (unless N19 is on), await, walrus, global/nonlocal, import, nested def/class,
 multiple or nested-tuple assignment targets, a logger call in value position, non-ASCII text, ...) is a
 failure: nothing of the function is translated.
 
@@ -130,6 +141,33 @@ CUR = ['?']
 FRAME = [None]          # the names of the frame being translated (None: every non-module name counts)
 DEFAULT_MUTATORS = ('extend', 'append', 'update', 'sort')
 OPTS = {'call_frame_callee': False, 'mutators': frozenset(), 'arith_div_pow': False}      # N16, N17, N18 (opt-in)
+GEN = [False]           # N19 (opt-in): the function being translated is a generator translated as a list
+YIELD_VAR = '__yield'
+
+
+class Raw(ast.stmt):
+    """N19: an already translated statement (the initialisation / final return of the accumulator)."""
+    _fields = ()
+
+
+def raw(text):
+    n = Raw()
+    n.text = text
+    return n
+
+
+def has_yield(fn):
+    """Does fn itself (not a function / lambda / class nested in it) contain yield or yield from?"""
+    def walk(n):
+        for c in ast.iter_child_nodes(n):
+            if isinstance(c, (ast.Yield, ast.YieldFrom)):
+                return True
+            if isinstance(c, (ast.FunctionDef, ast.AsyncFunctionDef, ast.ClassDef, ast.Lambda)):
+                continue
+            if walk(c):
+                return True
+        return False
+    return walk(fn)
 
 
 def cstr(s, node=None):
@@ -358,6 +396,11 @@ def stmt(n, ind):
         return pad + 'SSkip'
     if isinstance(n, ast.Pass):
         return pad + 'SSkip'
+    if isinstance(n, Raw):                                                                                  # N19
+        return pad + n.text
+    if GEN[0] and isinstance(n, ast.Expr) and isinstance(n.value, ast.Yield):                               # N19
+        return pad + 'SAssign %s (ECall "list.append" %s [])' % (cstr(YIELD_VAR), clist(
+            ['EVar %s' % cstr(YIELD_VAR), 'ENone' if n.value.value is None else expr(n.value.value)]))
     if isinstance(n, ast.Expr):
         if isinstance(n.value, ast.Call):
             f = n.value.func
@@ -439,6 +482,10 @@ def stmt(n, ind):
         if n.cause is None and isinstance(e, ast.Name):                     # `raise ValueError`: the class, no arguments
             return pad + 'SRaise %s []' % cstr(e.id)
         unknown(n, 'raise form')
+    if GEN[0] and isinstance(n, ast.Return):                                                                # N19
+        if n.value is not None:
+            unknown(n, 'return with a value inside a generator')
+        return pad + 'SReturn (EVar %s)' % cstr(YIELD_VAR)
     if isinstance(n, ast.Return):
         return pad + 'SReturn (%s)' % ('ENone' if n.value is None else expr(n.value))
     unknown(n, 'statement')
@@ -568,10 +615,11 @@ LEGACY_HEADER = [
 
 
 def translate(src_path, funcs, header, modules=frozenset({'np'}), logger='logger', strict_params=False,
-              call_frame_callee=False, mutators_as_stores=False, arith_div_pow=False):
+              call_frame_callee=False, mutators_as_stores=False, arith_div_pow=False, generators_as_lists=False):
     """The text of the generated file; raises Unknown (fail closed)."""
     global MODULES, LOGGER
     MODULES, LOGGER = set(modules), logger
+    GEN[0] = False
     if mutators_as_stores is True:
         mutators_as_stores = DEFAULT_MUTATORS
     OPTS.update(call_frame_callee=bool(call_frame_callee), arith_div_pow=bool(arith_div_pow),
@@ -612,8 +660,22 @@ def translate(src_path, funcs, header, modules=frozenset({'np'}), logger='logger
             FRAME[0] |= frame_names(f)
         out.append('Definition params_%s : list string :=\n  %s.\n' % (
             ident, clist(cstr(p) for p in params(fn, strict_params))))
-        out.append('(* %s: %s *)' % (name, describe(mode)))
-        out.append('Definition prog_%s : stmt :=\n%s.\n' % (ident, block(region(fn, mode), 2)))
+        stmts = region(fn, mode)
+        GEN[0] = bool(generators_as_lists) and has_yield(fn)                                                # N19
+        if GEN[0]:
+            if mode != 'body':
+                raise Unknown('%s: a generator is translated as a list only with mode body, not %r' % (name, mode))
+            if YIELD_VAR in FRAME[0]:
+                raise Unknown('%s: the frame already binds the name %s' % (name, YIELD_VAR))
+            FRAME[0].add(YIELD_VAR)
+            stmts = ([raw('SAssign %s (EList [])' % cstr(YIELD_VAR))] + stmts
+                     + [raw('SReturn (EVar %s)' % cstr(YIELD_VAR))])
+        out.append('(* %s: %s%s *)' % (name, describe(mode),
+                                       ', generator as the list of yielded values (N19)' if GEN[0] else ''))
+        try:
+            out.append('Definition prog_%s : stmt :=\n%s.\n' % (ident, block(stmts, 2)))
+        finally:
+            GEN[0] = False
     return '\n'.join(out)
 
 
@@ -639,7 +701,7 @@ def poison(msg):
 
 def generate(src_relpath, funcs, out_name, header_note, modules=frozenset({'np'}), logger='logger',
              on_fail='poison', out_path=None, header=None, strict_params=False,
-             call_frame_callee=False, mutators_as_stores=False, arith_div_pow=False):
+             call_frame_callee=False, mutators_as_stores=False, arith_div_pow=False, generators_as_lists=False):
     """Translate functions of $EMD_REPO/<src_relpath> into $EMD_COQ_DIR/gen/<out_name>.
 
     funcs        [(path, mode)] or [(path, mode, coq_name)]: path = 'f' | 'Class.method' | 'outer.inner' (nested
@@ -652,6 +714,8 @@ def generate(src_relpath, funcs, out_name, header_note, modules=frozenset({'np'}
                  'exit': message + exit code 2, file untouched (only for drivers registered in common.py).
     call_frame_callee, mutators_as_stores, arith_div_pow   the opt-in normalisations N16, N17, N18 of the module
                  docstring (default off; mutators_as_stores may also be an iterable of method names).
+    generators_as_lists   the opt-in normalisation N19 (default off: `yield` fails closed): a function containing
+                 `yield` is translated as the function returning the list of yielded values.
     Returns True when the translation succeeded. The file is rewritten only when its content changes."""
     tag = os.path.splitext(os.path.basename(sys.argv[0] or 'gen_skeleton'))[0]
     path = out_path or os.path.join(COQ_DIR, 'gen', out_name)
@@ -659,7 +723,7 @@ def generate(src_relpath, funcs, out_name, header_note, modules=frozenset({'np'}
     if header is None:
         notes = [header_note] if isinstance(header_note, str) else list(header_note)
         on = [t for t, v in (('N16 call_frame_callee', call_frame_callee), ('N17 mutators_as_stores', mutators_as_stores),
-                             ('N18 arith_div_pow', arith_div_pow)) if v]
+                             ('N18 arith_div_pow', arith_div_pow), ('N19 generators_as_lists', generators_as_lists)) if v]
         if on:
             notes.append('opt-in normalisations enabled: ' + ', '.join(on))
         header = ['(* GENERATED by harness/%s.py from %s - do not edit; rewritten on every run.' % (tag, src_relpath),
@@ -668,7 +732,7 @@ def generate(src_relpath, funcs, out_name, header_note, modules=frozenset({'np'}
         header[-1] += ' *)'
     try:
         text = translate(src_path, funcs, header, modules, logger, strict_params,
-                         call_frame_callee, mutators_as_stores, arith_div_pow)
+                         call_frame_callee, mutators_as_stores, arith_div_pow, generators_as_lists)
         htext = '\n'.join(header)
         if htext.count('(*') != 1 or htext.count('*)') != 1 or not htext.startswith('(*') or not htext.endswith('*)') \
                 or '"' in htext:
